@@ -66,7 +66,9 @@ TABLE = [
     (gunicorn.util, {"os": OS, "fcntl": FCNTL, "time": TIME, "pwd": PWD, "_unlink": OS.unlink, "random": FakeRandom()}),
     (gunicorn.glogging, {"os": OS, "time": TIME}),
     (gunicorn.workers.workertmp, {"os": OS, "tempfile": TEMPFILE, "time": TIME}),
-    (gunicorn.workers.base, {"os": OS, "signal": SIGNAL, "time": TIME, "randint": fake_randint, "datetime": FakeDatetime}),
+    (gunicorn.workers.base, {"os": OS, "signal": SIGNAL, "time": TIME, "randint": fake_randint, "datetime": FakeDatetime,
+                             # the connection world (worlds.conn) stubs the heartbeat file; the kernel worlds always run the real one
+                             "WorkerTmp": gunicorn.workers.workertmp.WorkerTmp}),
     (gunicorn.workers.sync, {"os": OS, "select": SELECT, "datetime": FakeDatetime}),
     (gunicorn.workers.gthread, {"os": OS, "selectors": SELECTORS, "time": TIME, "datetime": FakeDatetime,
                                 "futures": FUTURES, "RLock": facade.SimRLock}),
